@@ -363,6 +363,7 @@ func (x *Exec) execStore(p *Path, v *ssa.Store) bool {
 		}
 	case "slot":
 		x.frameCheck(p, "arr", l.Arr, v)
+		p.pendingExt = "fresh:" + l.Arr
 		inner := fmt.Sprintf("(store (select (Mem %s) %s) %s %s)", p.H, l.Arr, l.Idx, wrapElem(l.Elem, val.T))
 		x.store1(p, "Mem", l.Arr, inner)
 	case "cell":
@@ -741,7 +742,7 @@ func (x *Exec) execRange(p *Path, v *ssa.Range) bool {
 	p.declare(n, "Int")
 	dom := fmt.Sprintf("(select (MDom %s) %s)", p.H, m.T)
 	p.assume(fmt.Sprintf("(= %s (select (MCard %s) %s))", n, p.H, m.T))
-	p.assume(fmt.Sprintf("(<= 0 %s)", n))
+	p.assume(fmt.Sprintf("(and (<= 0 %s) (<= %s MAXINT))", n, n))
 	p.assume(fmt.Sprintf("(forall ((i Int)) (! (=> (and (<= 0 i) (< i %s)) (and (select %s (select %s i)) (= (select %s (select %s i)) i))) :pattern ((select %s i))))", n, dom, ord, inv, ord, ord))
 	p.assume(fmt.Sprintf("(forall ((k Str)) (! (=> (select %s k) (and (<= 0 (select %s k)) (< (select %s k) %s) (= (select %s (select %s k)) k))) :pattern ((select %s k))))", dom, inv, inv, n, ord, inv, inv))
 	p.assume(fmt.Sprintf("(isEnum %s %s %s)", ord, dom, n))
